@@ -298,6 +298,24 @@ class History(object):
             w.deliver_signal(op[1])
         elif kind == 'cfg':
             self.edit_config(op[1])
+        elif kind == 'write':
+            # a live worker writes n bytes to its captured stdout / stderr
+            # (a real pipe); nothing is written when the channel is not
+            # captured or too much is still unread
+            cands = sorted(p.pid for p in w.kernel.procs.values()
+                           if p.state == 'running' and p.kind == 'worker'
+                           and p.wfd.get(op[2]) is not None)
+            if cands:
+                pid = cands[op[1] % len(cands)]
+                self.unread_cap = getattr(self, 'unread_cap', {})
+                tot = self.unread_cap.get(pid, 0) + op[3]
+                if tot <= 40000:
+                    self.unread_cap[pid] = tot
+                    try:
+                        os.write(w.kernel.procs[pid].wfd[op[2]],
+                                 b'x' * op[3])
+                    except OSError:
+                        pass
         elif kind == 'conn':
             if self.socks:
                 self.connect(op[1])
@@ -601,9 +619,21 @@ def lifecycle_cases(requests=('incr', 'decr', 'set', 'restart', 'reload',
             rl = req('reloadconfig', ww(st.just({})))
             pool += [cfg_op, cfg_op, rl, rl]
         reqs = st.one_of(*pool)
-        ops = draw(st.lists(st.one_of(reqs, reqs, pacing_ops(),
-                                      pacing_ops(), deaths, deaths),
-                            min_size=1, max_size=max_ops))
+        if capture and any(wc.get("stdout_stream") for wc in watchers):
+            # workers write: sizes around the redirector's 1024-byte buffer
+            writes = st.tuples(
+                st.just("write"), st.integers(0, 5),
+                st.sampled_from(['stdout', 'stdout', 'stderr']),
+                st.sampled_from([1, 7, 100, 1023, 1024, 1025, 2048, 3000,
+                                 4096])).map(list)
+            ops = draw(st.lists(st.one_of(reqs, reqs, pacing_ops(),
+                                          pacing_ops(), deaths, deaths,
+                                          writes, writes),
+                                min_size=1, max_size=max_ops))
+        else:
+            ops = draw(st.lists(st.one_of(reqs, reqs, pacing_ops(),
+                                          pacing_ops(), deaths, deaths),
+                                min_size=1, max_size=max_ops))
         c = {"watchers": watchers, "tape": tape, "ops": ops}
         if ondemand and not use_config and draw(st.integers(0, 3)) == 0:
             # one on-demand watcher on a real managed socket; connections
